@@ -39,14 +39,14 @@ Proof.
     rewrite (csi_digits _ _ _ _ _ _ _ Hdig). cbn [app].
     cbn [parse_loop]. change (is_digit 109) with false. cbn iota.
     change (109 =? 59) with false. change (109 =? 109) with true. cbn iota.
-    rewrite Hint. rewrite Z.min_l by (unfold code_ok in Hn; lia). reflexivity.
+    rewrite Hint. reflexivity.
   - change (join [59] (map str_of_int (n :: n2 :: codes')))
       with (str_of_int n ++ [59] ++ join [59] (map str_of_int (n2 :: codes'))).
     rewrite <- !app_assoc.
     rewrite (csi_digits _ _ _ _ _ _ _ Hdig). cbn [app].
     cbn [parse_loop]. change (is_digit 59) with false. cbn iota.
     change (59 =? 59) with true. cbn iota.
-    rewrite Hint. rewrite Z.min_l by (unfold code_ok in Hn; lia).
+    rewrite Hint.
     rewrite (IH (params ++ [n]) rest st style acc ltac:(discriminate) Hrest).
     rewrite <- app_assoc. reflexivity.
 Qed.
@@ -342,16 +342,12 @@ Example rt_dom_example :
 Proof. vm_compute. split; reflexivity. Qed.
 
 (* ---------------------------------------------------------------------- *)
-(* the defect: parse_color accepts "#" + any six characters, the encoder then
-   drops the colour silently, so resolved attributes do not always survive *)
-Definition rule_zz : list (str * str) := [([97], [35; 122; 122; 122; 122; 122; 122])].
-Theorem resolved_roundtrip_refuted :
-  exists rules s a,
-    style_get rules s DEFAULT_ATTRS = Ok a /\
-    a_color a = Some [122; 122; 122; 122; 122; 122] /\
-    exists back, decode_seq (escape_code 24 a) = Ok back /\ a_color back = Some [].
+(* the defect repaired by d87ad65: parse_color accepted "#" + any six
+   characters, a colour outside the round-trip domain that the encoder drops;
+   the current parse_color rejects it *)
+Theorem parse_color_pinned_refuted :
+  exists t c, parse_color_pinned t = Some c /\ color_ok (Some c) = false /\ parse_color t = None.
 Proof.
-  exists rule_zz, [99; 108; 97; 115; 115; 58; 97].
-  eexists. split; [vm_compute; reflexivity|]. split; [reflexivity|].
-  eexists. split; [vm_compute; reflexivity | reflexivity].
+  exists [35; 122; 122; 122; 122; 122; 122], [122; 122; 122; 122; 122; 122].
+  vm_compute. repeat split; reflexivity.
 Qed.
